@@ -9,14 +9,23 @@ Sequence.responses, pendingResponses/numPredicted after every batch, and the don
 model's `run`/`settle`/`trace` (Runner/StopCorr.v chk_run, chk_trace).  Monitor: the property itself evaluated on
 the observation in Python, independently of the model (prefix; ends immediately before the earliest stop and
 contains none, else ends at EOS / the limit; valid text => every piece whole UTF-8 and stop-free; reason).
-(T) llamarunner's loop cannot be executed without llama.cpp objects: its statements are required to be identical
-to ollamarunner's (harness twin, go/ast).
+(L) runner/llamarunner: its processBatch cannot run in place without a llama.cpp model (Decode / Sample / TokenToPiece
+are cgo calls on concrete types), but (L1) its REAL flushPending, removeSequence and the prediction-limit check of
+processBatch(nil, nil) run on a Server + Sequence built by an overlay shim (harness c14lr), at the pending states
+the scripted generations reach (derived from the ollamarunner trace) and on random pending states, with a fast, a
+slow (reads only when the producer blocks on the full 100-entry channel) and an absent reader; (L2) the statements
+of its per-token loop body (everything after `piece := s.model.TokenToPiece(token)`) are extracted from the CURRENT
+source by harness/cmd/c14gen (go/ast; only `s.model.TokenIsEog(token)` is rewritten to a parameter), compiled into
+package llamarunner as c14Tail and driven with the same scripts; both are monitored and compared with the model like
+the ollamarunner runs.  (T) the go/ast twin comparison of the two runners' statements is kept as a cross-check.
+The slow-reader cases also run on ollamarunner (c14run mode "slow").
 """
 import itertools
+import time
 from lib import vlib
 from lib.vlib import cq_bytes, cq_list, cq_bool, cq_nat, cq_N
 
-SETUP_BUILDS = [{"name": "c14"}, {"name": "c14run"}, {"name": "twin"}]
+SETUP_BUILDS = [{"name": "c14"}, {"name": "c14run"}, {"name": "c14lr"}, {"name": "c14gen"}, {"name": "twin"}]
 COQ_TARGETS = ["Runner/Properties_C14.v", "Runner/StopCorr.v"]
 HEADER = "From Coq Require Import List NArith Bool.\nFrom V Require Import Common.Bytes Runner.Stop Runner.StopCorr.\nImport ListNotations.\nOpen Scope N_scope.\n"
 ALPHA = [b"a", b"b", b"c", b" ", b"\xc3", b"\xa9", b"\xe2", b"\x82", b"\xac", b"\xf0", b"\x9f", b"\x98", b"\x80", b"\xff", b"\xed", b"\xa0", b"\xc0", b"\xf4", b"\x90"]
@@ -165,7 +174,9 @@ def run(ctx):
                    "Go harness harness/cmd/c14 and overlay export VerifFlush (add-only, build tag verif)",
                    "Go harness harness/cmd/c14run: scripted model/TextProcessor/backend/cache stub behind the real Server (overlay c14run.go, model/c14.go, add-only); "
                    "its step mode copies the slot-assignment block of (*Server).completion, its http mode calls the real handler",
-                   "llamarunner is tied only syntactically (harness twin: same statements as ollamarunner)", "python case generator and monitor (props/c14.py)"]
+                   "Go harness harness/cmd/c14lr + overlay shim runner/llamarunner/c14lr.go (hand-built Server/Sequence without a llama.cpp model; a stand-in for Decode that moves "
+                   "the handed-back token into the cache slot) and the extractor harness/cmd/c14gen: llamarunner's loop body runs as a mechanically extracted copy of the current "
+                   "source (statements after `piece := ...`), its sampling/Decode part is not executed", "python case generator and monitor (props/c14.py)"]
     ctx.assumptions = ["stop strings are non-empty in the theorems (an empty stop string is contained in every text)",
                        "prefix / stop-freeness / exactness assume the generated text is (a prefix of) valid UTF-8 (C14_*_partial, C14_valid_text_lossless); "
                        "without it they are refuted (C14_prefix_refuted, C14_stop_free_refuted; known finding C14-invalid-utf8-dropped)",
@@ -396,6 +407,20 @@ def run_case(rng, seqs, klass, mode=None):
     return {"op": "run", "mode": mode, "parallel": parallel, "batch": batch, "ctx": ctxn, "cache": cache, "seqs": js, "klass": klass}
 
 
+def long_slow_cases(rng):
+    q = gen_seq(rng, rng.choice(["mb-split", "stop-split", "stop-recur", "limit-pending", "eos-pending", "prefix-stops", "stop-at-limit"]))
+    npre = 100 + rng.randint(0, 3)
+    pre = [rng.choice([b"x", b"y", b"z", b"w", b"xy"]) for _ in range(npre)]
+    q = {"pieces": pre + q["pieces"], "eos": None if q["eos"] is None else q["eos"] + npre, "stops": q["stops"],
+         "limit": q["limit"] + npre if q["limit"] else 0}
+    if q["eos"] is None and not q["limit"]:
+        q["eos"] = len(q["pieces"])
+    cache = rng.choice(["none", "stub"])
+    base = {"op": "run", "parallel": 1, "batch": 256 if cache == "none" else rng.choice([8, 64]), "ctx": 512, "cache": cache,
+            "seqs": [seq_json(q, rng.randint(1, 3), 0)], "klass": "long-slow"}
+    return [dict(base, mode="step"), dict(base, mode="slow")]
+
+
 def corpus_runs():
     """minimal cases that matter (each would expose one realistic regression of the loop)"""
     def c(pieces, stops, limit=0, eos=True, klass="corpus"):
@@ -441,6 +466,11 @@ def gen_run_cases(ctx):
         for _ in range(n):
             k = 1 if rng.random() < 0.85 else rng.randint(2, 3)
             cases.append(run_case(rng, [gen_seq(rng, klass) for _ in range(k)], klass))
+    # slow / blocked reader: more than 100 flushed pieces (the response channel buffers 100) before a tail that ends
+    # with text pending; the same script once with the step-by-step reader and once with a reader that only reads
+    # when the producer is blocked
+    for _ in range(10 if ctx.quick() else 60):
+        cases.extend(long_slow_cases(rng))
     # exhaustive small scope: every token list up to length L over a small piece alphabet (incl. EOS), stop "ab" / e-acute
     L = 3 if ctx.quick() else 5
     alpha = ["61", "62", "c3", "a9", "", "EOS"]
@@ -594,7 +624,7 @@ def shrink_run(ctx, binp, c, si, klass):
     return c2
 
 
-def run_stage(ctx, cases=None):
+def run_stage(ctx, cases=None, with_lr=True, lr_extra=None):
     binp = ctx.go_build("c14run")
     if not binp:
         return
@@ -616,7 +646,7 @@ def run_stage(ctx, cases=None):
             continue
         nontriv = False
         for si, (q, so) in enumerate(zip(c["seqs"], o["seqs"])):
-            if so["submit"] not in ("ok", "http") or (c["mode"] == "http" and so.get("status") != 200):
+            if so["submit"] not in ("ok", "http", "slow") or (c["mode"] == "http" and so.get("status") != 200):
                 ctx.violation({"op": "run", "class": "submit-failed"}, "sequence could not be submitted: %s %s" % (so["submit"], so.get("body")), {"case": c, "impl": o})
                 continue
             nontriv = nontriv or len(so["outs"]) > 0 and (len(q["stops"]) > 0 or any(len(t) > 2 and t != "EOS" for t in q["toks"]))
@@ -632,6 +662,12 @@ def run_stage(ctx, cases=None):
                 items.append(it)
                 owners.append((c, si, o))
         ctx.note_case(canon, nontriv, c["klass"], sample={"case": c, "impl": o})
+    slow = [o["seqs"][0] for c, o in zip(cases, obs) if c.get("mode") == "slow" and o.get("seqs")]
+    if slow:
+        ctx.extra["ollamarunner_slow_reader_cases"] = len(slow)
+        ctx.extra["ollamarunner_slow_reader_cases_producer_blocked"] = sum(1 for x in slow if x.get("status"))
+    if with_lr:
+        lr_stage(ctx, cases, obs, extra=lr_extra)
     badi, log = ctx.coq_eval(HEADER, items, per_file=120, name="runs")
     if badi is None:
         ctx.obligation("correspondence (runs): model evaluated on all cases", False, log)
@@ -643,6 +679,253 @@ def run_stage(ctx, cases=None):
         c, si, o = owners[i]
         ctx.mismatch("Runner/StopCorr.%s" % items[i].split()[0], {"case": c, "sequence": si}, o["seqs"][si],
                      ctx.coq_print(HEADER, run_model_term(c["seqs"][si])) if len(ctx.mismatches) < 3 else None)
+
+
+
+# ====================================================================================================================
+# (L) the end-of-sequence paths of the REAL llamarunner (harness c14lr): flushPending, removeSequence, the limit check
+#     of processBatch(nil, nil), at the pending states a scripted generation reaches; fast / slow / absent reader
+# ====================================================================================================================
+
+def build_lr(ctx):
+    """harness c14lr, with llamarunner's loop body (the statements of processBatch after the sampling of a token)
+    extracted from the CURRENT tree by harness/cmd/c14gen and compiled into package llamarunner as c14Tail
+    (-tags verif,c14gen).  Returns (binary, loop_available).  vlib.go_build cannot add a generated overlay file, so
+    the second build is done here (same lock, same overlay mechanism; nothing is written into the repo)."""
+    import hashlib
+    import json
+    import os
+    import shutil
+    import subprocess
+    plain = ctx.go_build("c14lr")
+    gen = ctx.go_build("c14gen")
+    if not plain or not gen:
+        return plain, False
+    p = subprocess.run([gen, vlib.REPO], capture_output=True, text=True, timeout=120)
+    if p.returncode != 0 or "func (s *Server) c14Tail" not in p.stdout:
+        ctx.obligation("llamarunner's per-token loop body extracted from the tree (c14gen)", False, p.stderr + p.stdout[-500:])
+        ctx.proof_failures.append({"obligation": "correspondence: runner/llamarunner processBatch no longer has the shape c14gen extracts the loop body from "
+                                                 "(statements after `piece := ...` in `for i, seq := range s.seqs`, no return / llama.cpp call other than TokenIsEog)",
+                                   "detail": (p.stderr + p.stdout)[-2000:]})
+        return plain, False
+    tag = "" if vlib.REPO == "/repo" else "-" + hashlib.sha1(vlib.REPO.encode()).hexdigest()[:8]
+    gdir = os.path.join(vlib.BUILD, "c14gen" + tag)
+    os.makedirs(gdir, exist_ok=True)
+    gfile = os.path.join(gdir, "c14tail_gen.go")
+    if not os.path.exists(gfile) or open(gfile).read() != p.stdout:
+        open(gfile, "w").write(p.stdout)
+    outp = os.path.join(vlib.BUILD, "bin", "c14lrgen" + tag)
+    with vlib.Lock("go"):
+        # the shared build copy may have been re-synced for another checkout in the meantime
+        shutil.copy(os.path.join(vlib.REPO, "go.sum"), os.path.join(vlib.HARNESS, "go.sum"))
+        gm = open(os.path.join(vlib.HARNESS_SRC, "go.mod")).read().replace("/repo", vlib.REPO)
+        open(os.path.join(vlib.HARNESS, "go.mod"), "w").write(gm)
+        pkg = os.path.join(vlib.REPO, "runner", "llamarunner")
+        repl = {os.path.join(pkg, "zz_verif_c14lr.go"): os.path.join(vlib.HARNESS_SRC, "overlay", "runner", "llamarunner", "c14lr.go"),
+                os.path.join(pkg, "zz_verif_c14tailstub.go"): os.path.join(vlib.HARNESS_SRC, "overlay", "runner", "llamarunner", "c14tailstub.go"),
+                os.path.join(pkg, "zz_verif_c14tail_gen.go"): gfile}
+        ovj = os.path.join(gdir, "overlay.json")
+        json.dump({"Replace": repl}, open(ovj, "w"))
+        t = time.time()
+        rc, out = vlib.sh(["go", "build", "-tags", "verif,c14gen", "-overlay", ovj, "-o", outp, "./cmd/c14lr"], cwd=vlib.HARNESS, env=vlib.goenv(), timeout=1500)
+        ctx.extra["go_build_s"] = round(ctx.extra.get("go_build_s", 0) + time.time() - t, 1)
+    ok = rc == 0
+    ctx.obligation("llamarunner's per-token loop body extracted from the tree (c14gen) and compiled into package llamarunner", ok, out[-3000:])
+    if not ok:
+        ctx.proof_failures.append({"obligation": "correspondence: the extracted llamarunner loop body does not compile as an overlay function", "detail": out[-3000:]})
+        return plain, False
+    return outp, True
+
+
+def lr_segments(q, so):
+    """from the per-batch events of the real ollamarunner loop (whose body is the twin of llamarunner's): the points at
+    which the loop calls flushPending / removeSequence / the limit check, with the pending pieces it has there"""
+    segs, prev_pend, prev_np, ti = [], [], 0, 0
+    toks = q["toks"]
+    for e in so["events"]:
+        if e["npred"] == prev_np:
+            segs.append({"kind": "limit", "pend": prev_pend, "npred": prev_np})
+        else:
+            if ti >= len(toks):
+                return None
+            t = toks[ti]
+            ti += 1
+            if t == "EOS":
+                segs.append({"kind": "eos", "pend": prev_pend, "npred": e["npred"]})
+            elif e["done"]:
+                segs.append({"kind": "stop", "pend": prev_pend + [t], "npred": e["npred"]})
+            elif e["emit"]:
+                segs.append({"kind": "flush", "pend": prev_pend + [t], "npred": e["npred"]})
+            if not e["done"]:
+                # start of the next batch: the limit check (a no-op unless the limit is reached)
+                segs.append({"kind": "settle", "pend": e["pend"], "npred": e["npred"]})
+        prev_pend, prev_np = e["pend"], e["npred"]
+    return segs
+
+
+def lr_random_seg(rng):
+    alpha = [b"a", b"b", b"ab", b"x", b"", b"\xc3", b"\xa9", b"\xe2\x82", b"\xac", "é".encode(), "€".encode(), "😀".encode()[:2], b"\n\nHu", b"\xff"]
+    pend = [rng.choice(alpha) for _ in range(rng.randint(0, 4))]
+    kind = rng.choice(["flush", "eos", "stop", "settle", "settle"])
+    stops = rng.choice([[], [b"ab"], [b"\n\nHuman:", b"b"], ["é".encode()]])
+    limit = rng.randint(0, 4)
+    return {"op": "lr", "stops": [hx(x) for x in stops], "limit": limit, "reader": "fast", "klass": "lr-seg",
+            "segs": [{"kind": kind, "pend": [hx(x) for x in pend], "npred": rng.randint(0, 5)}]}
+
+
+def lr_render(c, o):
+    def bl(h_):
+        return cq_bytes(bytes.fromhex(h_))
+
+    def strs(l):
+        return cq_list([bl(x) for x in l], "str")
+    items = []
+    if c["reader"] != "fast":
+        return items
+    for sg, so in zip(c["segs"], o["segs"]):
+        k = sg["kind"]
+        if k == "flush":
+            items.append("chk_seg_flush %s %s %s" % (strs(sg["pend"]), strs(so["emit"]), strs(so["pend"])))
+        elif k == "eos":
+            items.append("chk_seg_eos %s %s %s %s" % (strs(sg["pend"]), strs(so["emit"]), strs(so["pend"]), cq_bool(so["closed"])))
+        elif k == "stop":
+            items.append("chk_seg_stop %s %s %s %s %s" % (strs(c["stops"]), strs(sg["pend"]), strs(so["emit"]), strs(so["pend"]), cq_bool(so["closed"])))
+        else:
+            rc = {"stop": 1, "length": 2}.get(o["reason"], 3) if so["closed"] else 0
+            items.append("chk_seg_settle %s %s %s %s %s %s %s" % (cq_nat(c["limit"]), strs(sg["pend"]), cq_nat(sg["npred"]), strs(so["emit"]), strs(so["pend"]),
+                                                                 cq_bool(so["closed"]), cq_N(rc)))
+    return items
+
+
+def lr_monitor_seg(c, o):
+    """a single end-of-sequence operation on a scripted pending state: what is sent is whole UTF-8 and a prefix of the
+    pending text (of its part before the earliest stop); nothing is lost when that text is valid UTF-8"""
+    viol = []
+    sg, so = c["segs"][0], o["segs"][0]
+    stops = [bytes.fromhex(x) for x in c["stops"]]
+    joined = b"".join(bytes.fromhex(x) for x in sg["pend"])
+    sent = b"".join(bytes.fromhex(x) for x in so["emit"])
+    target = joined
+    fires = sg["kind"] in ("flush", "eos", "stop") or (c["limit"] > 0 and sg["npred"] >= c["limit"])
+    if sg["kind"] == "stop":
+        k = earliest_stop(joined, stops)
+        target = joined if k is None else joined[:k]
+    if not fires:
+        target = b""
+    if not is_valid(sent):
+        viol.append(("piece-splits-character", "%s sent %r, which is not whole UTF-8" % (sg["kind"], sent)))
+    if sent != valid_prefix(target):
+        viol.append(("pending-text-lost" if target.startswith(sent) else "not-prefix",
+                     "%s on pending %r (stops %r): sent %r, expected %r" % (sg["kind"], joined, stops, sent, valid_prefix(target))))
+    want_closed = sg["kind"] in ("eos", "stop") or (sg["kind"] in ("limit", "settle") and fires)
+    if bool(so["closed"]) != want_closed:
+        viol.append(("not-finished" if want_closed else "finished-early", "%s: response channel closed=%r, expected %r" % (sg["kind"], so["closed"], want_closed)))
+    if want_closed and so["closed"]:
+        wantr = "length" if sg["kind"] in ("limit", "settle") else "stop"
+        if o["reason"] != wantr:
+            viol.append(("wrong-reason", "%s: reported reason %r, expected %r" % (sg["kind"], o["reason"], wantr)))
+    return viol
+
+
+def lr_stage(ctx, run_cases, run_obs, extra=None):
+    binp, loop_ok = build_lr(ctx)
+    if not binp:
+        return
+    rng = ctx.rng
+    cases = []
+    if loop_ok:
+        # (L2) whole scripted generations through llamarunner's own loop body (generated c14Tail) + its real limit check,
+        # flushPending and removeSequence: the same scripts as the ollamarunner stage
+        for c in run_cases:
+            if c.get("mode") not in ("step", "slow") or len(c["seqs"]) != 1:
+                continue
+            q = c["seqs"][0]
+            cases.append({"op": "loop", "toks": q["toks"], "stops": q["stops"], "limit": q["limit"], "prompt": q["prompt"],
+                          "reader": "fast" if c["mode"] == "step" else "slow", "klass": "lr-loop", "src": c})
+    for c, o in zip(run_cases, run_obs):
+        if c.get("mode") != "step" or len(c["seqs"]) != 1 or "seqs" not in o or len(o["seqs"]) != 1 or o["seqs"][0]["submit"] != "ok":
+            continue
+        q, so = c["seqs"][0], o["seqs"][0]
+        segs = lr_segments(q, so)
+        if segs is None:
+            continue
+        base = {"op": "lr", "stops": q["stops"], "limit": q["limit"], "segs": segs, "klass": "lr-" + c["klass"], "src": c, "src_npred": so["npred"]}
+        cases.append(dict(base, reader="fast"))
+        if c["klass"] == "long-slow":
+            cases.append(dict(base, reader="slow"))
+            if rng.random() < 0.4:
+                cases.append(dict(base, reader="never"))
+    if extra is not None:
+        cases.extend(extra)
+    else:
+        for _ in range(300 if ctx.quick() else 5000):
+            cases.append(lr_random_seg(rng))
+    send = [{k: v for k, v in c.items() if k not in ("src", "src_npred", "klass")} for c in cases]
+    obs, err = ctx.run_jsonl(binp, send)
+    if obs is None or len(obs) != len(cases):
+        ctx.obligation("harness c14lr answered every case", False, err)
+        ctx.proof_failures.append({"obligation": "correspondence: harness c14lr did not answer every case", "detail": err})
+        return
+    items, owners = [], []
+    for c, sc, o in zip(cases, send, obs):
+        if o.get("panic") or o.get("hang") or ("events" if c["klass"] == "lr-loop" else "segs") not in o:
+            ctx.note_case(sc, True, c["klass"])
+            ctx.violation({"op": "lr", "runner": "llamarunner", "class": "crash"}, "llamarunner end-of-sequence path crashed/hung: %s" % {k: o.get(k) for k in ("panic", "hang")},
+                          {"case": sc, "impl": o})
+            continue
+        viol = []
+        if c["klass"] == "lr-loop":
+            if o.get("notail"):
+                continue
+            q = c["src"]["seqs"][0]
+            viol = monitor_seq(c["src"], q, o, o)
+            for it in render_seq(q, o):
+                items.append(it)
+                owners.append((sc, o))
+            nontriv = len(o["outs"]) > 0 and (len(q["stops"]) > 0 or any(len(t) > 2 and t != "EOS" for t in q["toks"]))
+            for klass, msg in viol:
+                ctx.violation({"op": "loop", "runner": "llamarunner", "class": klass}, "llamarunner loop body (reader %s): %s" % (c["reader"], msg),
+                              {"case": sc, "impl": o, "replay_cmd": "echo '<case json>' | build/bin/c14lrgen"})
+            ctx.note_case(sc, nontriv, "lr-loop-" + c["reader"], sample={"case": sc, "impl": o})
+            continue
+        if c["klass"] == "lr-seg":
+            viol = lr_monitor_seg(c, o)
+            nontriv = bool(o["outs"])
+        else:
+            q = c["src"]["seqs"][0]
+            comb = {"outs": o["outs"], "reason": o["reason"], "closed": o["closed"], "npred": c["src_npred"], "submit": "lr"}
+            viol = monitor_seq(c["src"], q, comb, o)
+            if c["reader"] == "never":
+                # the reader went away (quit closed while the producer was blocked): the stream may be cut short, nothing else
+                viol = [(k_, m_) for k_, m_ in viol if k_ in ("not-prefix", "piece-splits-character", "piece-contains-stop", "output-contains-stop", "invalid-utf8-dropped")] \
+                    if o["blocked"] else viol
+            elif not (c["reader"] == "never"):
+                items.extend(render_seq(q, comb)[:1])
+                owners.extend([(sc, o)])
+            nontriv = len(o["outs"]) > 0
+        for klass, msg in viol:
+            ctx.violation({"op": "lr", "runner": "llamarunner", "class": klass}, "llamarunner (reader %s): %s" % (c["reader"], msg),
+                          {"case": sc, "impl": o, "derived_from_run_case": c.get("src"), "replay_cmd": "echo '<case json>' | build/bin/c14lr"})
+        for it in lr_render(c, o):
+            items.append(it)
+            owners.append((sc, o))
+        ctx.note_case(sc, nontriv, c["klass"] if c["klass"] == "lr-seg" else "lr-" + c["reader"], sample={"case": sc, "impl": o} if c["klass"] == "lr-seg" else None)
+    slow = [(c, o) for c, o in zip(cases, obs) if c.get("reader") in ("slow", "never") and isinstance(o, dict)]
+    nblocked = sum(1 for c, o in slow if o.get("blocked"))
+    ctx.extra["llamarunner_slow_reader_cases"] = len(slow)
+    ctx.extra["llamarunner_slow_reader_cases_producer_blocked"] = nblocked
+    if slow:
+        ctx.obligation("slow-reader cases reach the full response channel (producer found blocked in %d of %d)" % (nblocked, len(slow)), nblocked > 0)
+    badi, log = ctx.coq_eval(HEADER, items, per_file=200, name="lr")
+    if badi is None:
+        ctx.obligation("correspondence (llamarunner end paths): model evaluated on all cases", False, log)
+        ctx.proof_failures.append({"obligation": "correspondence evaluation (llamarunner) failed in coqc", "detail": log})
+        return
+    ctx.disagreements_checked += len(items)
+    ctx.obligation("correspondence: model flush/finish/settle/run = real llamarunner flushPending/removeSequence/limit check on %d observations (%d cases)" % (len(items), len(cases)), not badi)
+    for i in badi[:20]:
+        sc, o = owners[i]
+        ctx.mismatch("Runner/StopCorr.%s (llamarunner)" % items[i].split()[0], sc, o, None)
 
 
 def twin_check(ctx):
@@ -699,17 +982,28 @@ def replay(ctx, path):
     r = json.load(open(path))
     ctx.log("replaying", path)
     rp = r.get("replay") or {}
-    cases = [c for c in (rp.get("minimal_case"), rp.get("case")) if isinstance(c, dict) and c.get("op") == "run"]
+    cands = [rp.get("minimal_case"), rp.get("case"), rp.get("derived_from_run_case")]
     for d in r.get("disagreements", []):
-        c = (d.get("case") or {}).get("case")
-        if isinstance(c, dict) and c.get("op") == "run":
+        dc = d.get("case") or {}
+        cands.append(dc.get("case") if isinstance(dc.get("case"), dict) else dc)
+    cases, segs = [], []
+    for c in cands:
+        if not isinstance(c, dict):
+            continue
+        if c.get("op") == "run":
             cases.append(c)
-    if cases:
-        # a scripted generation: run exactly these cases through the real loop, the monitor and the model
+        elif c.get("op") == "loop":
+            # a scripted generation through llamarunner's loop body: replay it as a run case (both runners see it)
+            cases.append({"op": "run", "mode": "step" if c.get("reader", "fast") == "fast" else "slow", "parallel": 1, "batch": 256, "ctx": 512, "cache": "none",
+                          "seqs": [{"prompt": c.get("prompt", 1), "toks": c["toks"], "stops": c["stops"], "limit": c["limit"], "keep": 0}]})
+        elif c.get("op") == "lr" and len(c.get("segs", [])) == 1:
+            segs.append(dict(c, klass="lr-seg"))
+    if cases or segs:
+        # run exactly these cases through the real loops, the monitor and the model
         for c in cases:
             c.setdefault("klass", "replay")
         ctx.proof_stage(["Runner"], "Runner/Properties_C14.v", extra_targets=["Runner/StopCorr.v"])
-        run_stage(ctx, cases)
+        run_stage(ctx, cases, lr_extra=segs)
         return
     run(ctx)
 
@@ -730,11 +1024,14 @@ MANIFEST = {
                 "C14-invalid-utf8-dropped).  The hand-written model is tied to the code on every run: (P) runner/common/stop.go helpers, utf8.ValidString and "
                 "flushPending on random + exhaustive short byte strings; (S) whole scripted generations through the REAL ollamarunner Server.processBatch / "
                 "NewSequence / removeSequence / completion handler (scripted model+TextProcessor behind an overlay shim) compared batch by batch with the model's "
-                "run/settle/trace inside Coq (vm_compute); the property itself is monitored in Python on every observation; (T) llamarunner, which cannot run "
-                "without llama.cpp, is required to consist of the same statements as ollamarunner (go/ast twin check).",
+                "run/settle/trace inside Coq (vm_compute), including readers that leave the 100-entry response channel full; (L) runner/llamarunner: its real "
+                "flushPending / removeSequence / limit check of processBatch(nil,nil) executed on a model-less Server+Sequence at the pending states of the same "
+                "scripts (fast, slow, absent reader), and its per-token loop body executed as a function extracted mechanically from the current source (c14gen) - "
+                "Decode/sampling, which need llama.cpp, are not executed; the property itself is monitored in Python on every observation of both runners; "
+                "(T) go/ast twin comparison of the two runners kept as a cross-check.",
         "design_ref": "DESIGN.md section 5, C14",
     },
-    "level_note": "Trusted: Coq kernel/vm_compute; the model-to-code tie is differential testing (generator-bounded) through a scripted fake model/backend; llamarunner is "
-                  "tied syntactically only; theorems assume non-empty stop strings and, for prefix/stop-freeness/exactness, valid UTF-8 generated text.",
+    "level_note": "Trusted: Coq kernel/vm_compute; the model-to-code tie is differential testing (generator-bounded) through a scripted fake model/backend; llamarunner's "
+                  "loop body runs as an extracted copy of the current source, its Decode/sampling not at all; theorems assume non-empty stop strings and, for prefix/stop-freeness/exactness, valid UTF-8 generated text.",
     "technique": "Coq proof (invariant by induction over the token list) + model/implementation differential check",
 }
